@@ -178,15 +178,117 @@ func c14Use(x c14Parsed) {
 }
 
 // c14Check runs one text through the parser and the oracle.
+var c14Vias = []string{"Parser method", "FromString…WithParams", "FromString… (a fresh parser when there are parameters)", "Must() parser"}
+
+// c14ParseVia parses through one of the package's entry points; they all denote the same function.
+func c14ParseVia(via int, p parser.Parser, kind, text string, params parser.ParametersMap) (out c14Parsed, err error) {
+	switch via {
+	case 1, 2:
+		if via == 2 && len(params) > 0 {
+			return c14ParseText(parser.New(), kind, text, params)
+		}
+		switch kind {
+		case "fact":
+			var f biscuit.Fact
+			if via == 2 {
+				f, err = parser.FromStringFact(text)
+			} else {
+				f, err = parser.FromStringFactWithParams(text, params)
+			}
+			out.fact = &f
+		case "rule":
+			var r biscuit.Rule
+			if via == 2 {
+				r, err = parser.FromStringRule(text)
+			} else {
+				r, err = parser.FromStringRuleWithParams(text, params)
+			}
+			out.rule = &r
+		case "check":
+			var c biscuit.Check
+			if via == 2 {
+				c, err = parser.FromStringCheck(text)
+			} else {
+				c, err = parser.FromStringCheckWithParams(text, params)
+			}
+			out.check = &c
+		case "policy":
+			var x biscuit.Policy
+			if via == 2 {
+				x, err = parser.FromStringPolicy(text)
+			} else {
+				x, err = parser.FromStringPolicyWithParams(text, params)
+			}
+			out.policy = &x
+		case "block":
+			var b biscuit.ParsedBlock
+			if via == 2 {
+				b, err = parser.FromStringBlock(text)
+			} else {
+				b, err = parser.FromStringBlockWithParams(text, params)
+			}
+			out.block = &b
+		case "authorizer":
+			var a biscuit.ParsedAuthorizer
+			if via == 2 {
+				a, err = parser.FromStringAuthorizer(text)
+			} else {
+				a, err = parser.FromStringAuthorizerWithParams(text, params)
+			}
+			out.auth = &a
+		}
+		return out, err
+	case 3:
+		// the Must parser reports an error by panicking with it
+		defer func() {
+			if r := recover(); r != nil {
+				e, ok := r.(error)
+				if !ok {
+					panic(r)
+				}
+				err = e
+			}
+		}()
+		m := p.Must()
+		switch kind {
+		case "fact":
+			f := m.Fact(text, params)
+			out.fact = &f
+		case "rule":
+			r := m.Rule(text, params)
+			out.rule = &r
+		case "check":
+			c := m.Check(text, params)
+			out.check = &c
+		case "policy":
+			x := m.Policy(text, params)
+			out.policy = &x
+		case "block":
+			b := m.Block(text, params)
+			out.block = &b
+		case "authorizer":
+			a := m.Authorizer(text, params)
+			out.auth = &a
+		}
+		return out, nil
+	}
+	return c14ParseText(p, kind, text, params)
+}
+
 func c14Check(w *sup.W, t c14Text, layout int) {
+	via := layout / 10
+	layout %= 10
 	text := gram.Join(t.toks, layout)
 	if layout == 2 && (t.kind == "block" || t.kind == "rule" || t.kind == "authorizer") {
 		text = "// a comment, then the text\n" + text
 	}
 	human := fmt.Sprintf("%s %s: %q (layout %d) params %v", t.label, t.kind, text, layout, t.params)
+	if via > 0 {
+		human += " through " + c14Vias[via]
+	}
 	var parsed c14Parsed
 	var err error
-	if r, stack := sup.Catch(func() { parsed, err = c14ParseText(c14Parser(w), t.kind, text, c14Params(t.params)) }); r != nil {
+	if r, stack := sup.Catch(func() { parsed, err = c14ParseVia(via, c14Parser(w), t.kind, text, c14Params(t.params)) }); r != nil {
 		w.Class("panic")
 		w.Violate("C14:panic-in-parser:"+sup.PanicSig(stack), human, fmt.Sprint(r), "a result or an error")
 		return
@@ -503,8 +605,8 @@ func init() {
 					}
 				}})
 			}
-			spaces = append(spaces, mkSpace("frames", c14Frames(), []int{0, 1, 2, 3}))
-			spaces = append(spaces, mkSpace("stated-error-cases", c14Errors(), []int{0, 1}))
+			spaces = append(spaces, mkSpace("frames", c14Frames(), []int{0, 1, 2, 3, 10, 20, 30}))
+			spaces = append(spaces, mkSpace("stated-error-cases", c14Errors(), []int{0, 1, 10, 20, 30}))
 			// corruptions of a sub-corpus
 			var corpus []c14Text
 			fr := c14Frames()
